@@ -425,6 +425,20 @@ NoDelayOp(k, nodelay, interval, resend, nc) ==
             !.fastresend = IF resend >= 0 THEN resend ELSE @,
             !.nocwnd    = IF nc >= 0 THEN nc ELSE @]
 
+(* -------------------- progress bound after healing (C02/C03) ------------- *)
+(* Once the network delivers again and the reader reads, everything outstanding at that instant is delivered    *)
+(* within: the longest wait for a retransmission timer already armed, plus the window-probe back-off when the   *)
+(* peer's window is believed closed, plus a per-segment allowance of a few RTOs and flush intervals.  The bound *)
+(* is deliberately generous: the failure modes it is meant to expose are wedges (no progress at all).           *)
+RECURSIVE MaxWait(_, _, _)
+MaxWait(buf, t, acc) == IF buf = <<>> THEN acc
+                        ELSE MaxWait(Tail(buf), t, Max(acc, Max(SDiff(Head(buf).resendts, t), Head(buf).rto)))
+HealBound(h, t) ==
+  LET n    == Len(h.snd_buf) + Len(h.snd_queue) + 4
+      wait == MaxWait(h.snd_buf, t, h.rx_rto)
+      prb  == IF h.rmt_wnd = 0 \/ h.probe_wait > 0 THEN 2 * PROBE_LIMIT ELSE 0
+  IN wait + prb + n * (3 * Max(h.rx_rto, RTO_DEF) + 4 * h.interval)
+
 (* ----------------------- per-endpoint invariants ------------------------ *)
 (* C04, receiver side *)
 RcvQueueBounded(k) == Len(k.rcv_queue) <= k.rcv_wnd
